@@ -43,7 +43,10 @@ type spec struct {
 	Externals []specExternal `json:"externals,omitempty"`
 	// calls made for their effect on the outside world only (logging): dropped, arguments not evaluated
 	IgnoreCalls []string `json:"ignore_calls,omitempty"`
-	Require     []string `json:"require,omitempty"` // extra Coq modules the generated file imports (for the externals)
+	// integer constants of packages outside the standard library (their source is not type-checked):
+	// "<import path>.<Name>": value
+	Constants map[string]int64 `json:"constants,omitempty"`
+	Require   []string         `json:"require,omitempty"` // extra Coq modules the generated file imports (for the externals)
 }
 
 type specExternal struct {
